@@ -120,6 +120,16 @@ def pairs(ck, em, rng, count):
             fact("GmmML.weights", rel(m2.weights, m1.weights))
             l1, l2 = np.asarray(m1.log_likelihood(X)), np.asarray(m2.log_likelihood(Xt))
             fact("LogLikelihoodShift", rel(l2 + np.sum(np.log(np.abs(a))), l1, 1e-6))
+            # a far origin, through the NumPy and the Dask evaluation paths
+            import dask
+            import dask.array as da
+            Bf = float(r.choice([1e6, -4e6]))
+            m3 = mk(np.asarray(m1.means) + Bf, np.asarray(m1.variances))
+            m3.weights = np.array(m1.weights)
+            fact("LogLikelihoodFarOrigin.numpy", rel(np.asarray(m3.log_likelihood(X + Bf)), l1, 1e-6))
+            with dask.config.set(scheduler="synchronous"):
+                ld = np.asarray(m3.log_likelihood(da.from_array(X + Bf, chunks=(max(1, n // 3), D))).compute())
+            fact("LogLikelihoodFarOrigin.dask", rel(ld, l1, 1e-6), "offset %g" % Bf)
             # ---- GMM MAP (means / weights; variances through the as-implemented formula)
             p1, p2 = mk(mu0, v0), mk(mu0 * a + b, v0 * a ** 2)
             q1 = gmm(X, None, None, "map", p1, (True, False, True), cap=3)
